@@ -77,6 +77,18 @@ func init() {
 			for n := 1; n <= c10n(tier); n++ {
 				js = append(js, &Job{Harness: "C10Round", Params: map[string]int{"n": n}})
 			}
+			// hostnames around the 63-byte label / 255-byte total limits with a symbolic window
+			maxW := 2
+			if tier == "thorough" {
+				maxW = 3
+			}
+			for _, nl := range []int{0, 3} {
+				for l := 60; l <= 64; l++ {
+					for w := 0; w <= maxW; w++ {
+						js = append(js, &Job{Harness: "C10HostLimits", Params: map[string]int{"nl": nl, "l": l, "w": w}})
+					}
+				}
+			}
 			maxSeg := 3
 			if tier == "thorough" {
 				maxSeg = 4
@@ -92,9 +104,9 @@ func init() {
 			return js
 		},
 		Bounds: func(tier string) string {
-			return fmt.Sprintf("C10(a): every pattern string of 0..%d bytes over the full byte alphabet with default limits, 0..%d bytes with (maxParams,maxKeyBytes) in {(1,1),(2,3)}; C10(b): every accepted pattern of 1..%d bytes as the only route, with every substitution of 1..2 bytes per named parameter and 1..3 bytes per catch-all (full alphabet minus the delimiters); plus patterns assembled from 14 host forms x up to 3 (quick) / 4 (thorough) segments out of 18 segment forms (valid and malformed wildcards, mid-segment forms, literal braces), optional trailing slash, three limit configurations; each accepted assembled pattern (default limits) is also routed as the only route with fixed substitution values after a neighbour route extending its hostname or path was registered and deleted again", c10n(tier), c10n(tier)-1, c10n(tier))
+			return fmt.Sprintf("C10(a): every pattern string of 0..%d bytes over the full byte alphabet with default limits, 0..%d bytes with (maxParams,maxKeyBytes) in {(1,1),(2,3)}; C10(b): every accepted pattern of 1..%d bytes as the only route, with every substitution of 1..2 bytes per named parameter and 1..3 bytes per catch-all (full alphabet minus the delimiters); plus patterns assembled from 14 host forms x up to 3 (quick) / 4 (thorough) segments out of 18 segment forms (valid and malformed wildcards, mid-segment forms, literal braces), optional trailing slash, three limit configurations; hostnames of 0 or 3 full 63-byte labels followed by a label of 60..64 letters and a fully symbolic window of 0..2 (thorough 0..3) bytes (the 63-byte label and 255-byte total limits); each accepted assembled pattern (default limits) is also routed as the only route with fixed substitution values after a neighbour route extending its hostname or path was registered and deleted again", c10n(tier), c10n(tier)-1, c10n(tier))
 		},
-		RequiredCovers: []string{"accepted", "rejected", "accepted with hostname", "accepted with wildcard", "dont-care region", "round trip with wildcards", "round trip with hostname", "round trip after a neighbour came and went"},
+		RequiredCovers: []string{"accepted", "rejected", "accepted with hostname", "accepted with wildcard", "dont-care region", "round trip with wildcards", "round trip with hostname", "round trip after a neighbour came and went", "long hostname accepted", "long hostname rejected"},
 		Assumptions: []string{
 			"grammar don't-care regions (neither acceptance nor rejection asserted): '_' in a host label, an all-numeric last label beside non-numeric ones, '-' directly before a host {param}",
 			"fmt.Errorf modelled (message opaque, %w operands kept); errors.Is modelled by walking Unwrap",
